@@ -2,6 +2,7 @@
 driver binary, so that every suite can run on generated message types that are not checked in."""
 import os
 import random
+import re
 import shutil
 
 import common as C
@@ -230,6 +231,7 @@ def random_schema(pkg, rnd, salt=0):
     # structure drawn from the first stream stays what it was before casts entered the grammar
     rnd2 = random.Random("casts:%s:%s" % (pkg, salt))
     s = header(pkg) + "enum E { Z = 0; A = 1; B = 2; N = -3; }\nmessage Stamp { int64 seconds = 1; int32 nanos = 2; }\n"
+    bodies = []
     for mi, name in enumerate(names):
         capture = rnd.random() < 0.25
         msg_ap = rnd.random() < 0.15
@@ -299,6 +301,16 @@ def random_schema(pkg, rnd, salt=0):
                 continue
             body += "  %s%s %s = %d%s;\n" % ((label + " ") if label else "", ty, fname, num, (" [" + ", ".join(opts) + "]") if opts else "")
             i += 1
+        bodies.append((name, body))
+    # second stream: sometimes the last message is declared inside the first one (Go name M0_Mk, references qualified)
+    if len(bodies) >= 3 and rnd2.random() < 0.4:
+        inner, ibody = bodies.pop()
+        outer, obody = bodies[0]
+        nested = "  message %s {\n%s  }\n" % (inner, "".join("  " + l + "\n" for l in ibody.split("\n") if l))
+        bodies[0] = (outer, nested + obody)
+        qual = re.compile(r"(?<![A-Za-z0-9_.])%s(?= f\d)" % inner)
+        bodies = [(n, qual.sub("%s.%s" % (outer, inner), b)) for n, b in bodies]
+    for name, body in bodies:
         s += "message %s {\n%s}\n" % (name, body)
     return s
 
